@@ -157,6 +157,7 @@ type vfWorld struct {
 	stopOnViolation bool
 	loginAttempts   []time.Time
 
+	expiredCookie string
 	groupChanged  map[string]time.Time
 	groupSrvDownSince time.Time
 	groupSrvUpSince   time.Time
